@@ -11,6 +11,7 @@ mod c15;
 mod c13;
 mod c09;
 mod c16;
+mod c18;
 mod c19;
 mod world;
 mod vw;
@@ -48,6 +49,7 @@ fn main() {
         "C11" => c11::run(tier, seed, outdir),
         "C15" => c15::run(tier, seed, outdir),
         "C14" => c14::run(tier, seed, outdir),
+        "C18" => c18::run(tier, seed, outdir),
         "C19" => c19::run(tier, seed, outdir),
         "C09" => c09::run(tier, seed, outdir),
         "C20" => c20::run(tier, seed, outdir),
